@@ -28,6 +28,40 @@ IDENTITYLESS = {"numpy.amax", "numpy.amin", "numpy.mean", "numpy.median", "numpy
 def check(ctx):
     repo = ctx.repo
     from . import generic
+    # explicit bounds tests of the positional helpers: a test under which the default is returned WITHOUT trying the index may
+    # hold only for indices Python indexing rejects (decided exactly by sa/intpred.py: the test touches index and length only
+    # through comparisons, abs and negation)
+    from ..intpred import implies_out_of_range
+    ctx.rule("GRD-index", "an explicit `index out of range` shortcut of first / last / nth holds only for indices that x[index] rejects")
+    n_idx = 0
+    for hname in ("nth", "first", "last"):
+        hf = repo.functions.get(f"dataiter.aggregate.{hname}")
+        if hf is None or not hf.params:
+            continue
+        xp = hf.params[0]
+        ip = "index" if "index" in hf.all_params else None
+        for node in [n for n in body_nodes(hf.node) if isinstance(n, ast.If)]:
+            tnames = {m.id for m in ast.walk(node.test) if isinstance(m, ast.Name)}
+            if ip is None or ip not in tnames or f"len({xp})" not in norm(node.test) and f"{xp}.length" not in norm(node.test):
+                continue
+            rets = [r for r in node.body if isinstance(r, ast.Return)]
+            if not rets:
+                continue
+            n_idx += 1
+            verdict, wit = implies_out_of_range(node.test, ip, [f"len({xp})", f"{xp}.length", f"{xp}.size"])
+            if verdict is None:
+                ctx.note(f"GRD-index: {hf.qualname}: test {norm(node.test)} not decidable here ({wit})")
+                continue
+            ctx.ob("GRD-index", hf, norm(node.test), node, verdict,
+                   "the shortcut is taken only for indices outside -len <= index < len" if verdict else
+                   f"`{norm(node.test)}` also holds for index = {wit[0]} with {wit[1]} element(s), which x[index] accepts: the helper returns "
+                   f"{norm(rets[0].value) if rets[0].value is not None else None} instead of that element (and disagrees with its group-wise form)",
+                   clause="first / last / nth return the element at that position when it exists")
+    ctx.note(f"GRD-index: {n_idx} explicit bounds shortcut(s) examined")
+    generic.sorted_unique_ties(ctx, [f for f in generic.module_functions(repo, "dataiter.aggregate") if f.name.startswith("mode")],
+                               "mode breaks ties by first occurrence")
+    generic.na_blind_paths(ctx, [f for f in generic.module_functions(repo, "dataiter.aggregate") if f.name == "handle_na"],
+                           "with drop_na the statistic is computed over the non-missing values only")
     generic.lossy_calls(ctx, generic.module_functions(repo, "dataiter.aggregate"),
                         "the statistic is computed over the non-missing values themselves")
     for r, t in (("SIB-7", "vector form == group form == spec table (threshold, default, statistic, NA wiring)"),
